@@ -13,9 +13,11 @@ META = {
              "they delimit (and text_for_token_range returns) concatenate to the input -- also behind a normalizer whose offset "
              "map is monotone, starts at 0 and maps char boundaries to char boundaries. No bound on text, table or vocabulary "
              "size. The regex pre-tokenizer and the Unicode normalizers are oracles: their answers are inputs of the model and "
-             "the hypotheses on them are checked on every case. Tie: Tokenizer::{encode,decode}, token_offsets, "
+             "the hypotheses on them are checked on every case; for pre-tokenizers meant to split, dropped text is a property failure "
+             "(decode(encode(s)) <> s on the implementation's own output), not a vacuous case. Tie: Tokenizer::{encode,decode}, token_offsets, "
              "text_for_token_range and char_to_byte() are run on generated tokenizers (trained merge tables, default and "
-             "scrambled vocabularies, added tokens, ignore_merges, 12 pre-tokenizers, 10 normalizers) and Unicode texts and "
+             "scrambled vocabularies, added tokens, ignore_merges, 13 pre-tokenizer configurations, 10 normalizers), on a sweep of every "
+             "Unicode general category through every splitting pre-tokenizer, and on random Unicode texts, and "
              "compared with the model inside Coq; the implementation's own outputs are checked against the property there."),
     "note": ("Trusted: Coq kernel; the correspondence sample (a test, not a proof); fancy-regex, unicode-normalization and the "
              "std UTF-8 routines (from_utf8, is_char_boundary, str::get: modelled); FxHashMap as a finite map. Vocabularies with "
@@ -32,7 +34,10 @@ THEOREMS = ["C27_byte_char_bijection", "C27_merge_preserves_concat", "C27_bpe_me
 
 
 def main(ctx):
-    ctx.rule = ("one TABLE case (the implementation's char_to_byte map) + one case per generated tokenizer: merges trained on "
+    ctx.rule = ("one TABLE case (the implementation's char_to_byte map) + the Unicode general-category sweep (>=2 representatives "
+                "of every category Lu..Cn, ASCII and non-ASCII, alone / doubled / between letters, spaces, digits, for each of the 10 "
+                "splitting pre-tokenizer configurations; a pre-tokenizer that drops text there is a property failure) + one case "
+                "per generated tokenizer: merges trained on "
                 "the case's own texts (so they fire), vocabulary default or scrambled ids, added tokens (fresh id / same as a "
                 "vocabulary entry / clashing), 4-11 Unicode texts (controls, combining marks, astral plane, special-token text, "
                 "whitespace runs, empty string, random scalars) each run through encode, token_offsets, "
@@ -48,10 +53,10 @@ def main(ctx):
     if not ok:
         raise vf.CheckerBroken("ModelC27.v does not compile: " + out[-1500:])
     bindir = ctx.harness(GROUP, profile="release", bins=["c27"])
-    cases = ctx.gen_exec(bindir, "c27", ctx.n(120, 1000), inputs=ctx.replay_inputs())
+    cases = ctx.gen_exec(bindir, "c27", ctx.n(60, 900), inputs=ctx.replay_inputs())
     lim = int(os.environ.get("VERIF_BPE_LIMIT", "0"))   # debugging aid (mutation experiments): stratified subset
     if lim and len(cases) > lim:
-        cases = cases[::len(cases) // lim]
+        cases = cases[:8] + cases[8::max(1, (len(cases) - 8) // lim)]   # the corpus lines come first and are always kept
     ctx.correspond("Tokenizer::encode/decode", GROUP, REQ, cases, show="show", shard=ctx.n(10, 20),
                    fn_name="Bpe.ModelBpe.{byte_to_char,bpe_new,tk_encode,text_for_token,decode}")
     if failed and not ctx.violations:
